@@ -172,8 +172,7 @@ class C06(Check):
             'optional field present or absent in shuffled order, nested error-info, optional <ok/>, errors nested under <data>; x 3 raise '
             'modes x exempt pattern sets (exact / prefix* / *suffix / *infix* / "*" / "**", user list and the nexus built-in list; messages '
             'of several words joined by single / double blanks, TAB, line feed, and patterns cut out of them with the case or the white space altered) run '
-            'Replies with 51-150 rpc-errors, <ok/> next to rpc-errors (known finding) and nested in a results wrapper, prefixed replies, every operation of the catalogue. '
-            'through the REAL RPC._request / RPCReplyListener / RPCReply.parse on a stub session, and (6 % of the cases) through the public connect_uds entry point with errors_params against a Unix-socket server; histories of 2-4 connects that are handed the SAME manager_params / errors_params dictionary. Non-trivial = at least one rpc-error; '
+            'through the REAL RPC._request / RPCReplyListener / RPCReply.parse on a stub session, and (6 % of the cases) through the public connect_uds entry point with errors_params against a Unix-socket server; histories of 2-4 connects that are handed the SAME manager_params / errors_params dictionary. Replies with 51-150 rpc-errors, <ok/> next to rpc-errors (known finding) and nested in a results wrapper, prefixed replies, every operation of the catalogue. Non-trivial = at least one rpc-error; '
             'distinct by case.')
     TRUST = ['str.lower() is modelled for ASCII letters only; generators use ASCII letters plus uncased Unicode',
              'lxml parsing of the reply (error fields are taken from the parsed tree: environment)']
